@@ -99,7 +99,8 @@ def gen(r, tier, i):
     br = [b for b in branches(sh) if not any(tuple(q[:len(b)]) == b for q in query)]
     if br and r.random() < 0.3:
         extra.append(list(r.choice(br)))
-    return {'shape': sh, 'times': times, 'rows': rows, 'query': query, 'extra_query': extra}
+    return {'shape': sh, 'times': times, 'rows': rows, 'query': query, 'extra_query': extra,
+            'embed': r.choice([[], [], [], ['x'], ['x', 'y']])}
 
 
 def realise(row, units):
@@ -147,12 +148,15 @@ def run(spec):
     V = Viol()
     sh = spec['shape']
     times = spec['times']
-    kinds = shape_leaves(sh)
+    embed = T(spec.get('embed', []))
+    kinds = {embed + p: k for p, k in shape_leaves(sh).items()}
     rows = [realise(r, units) for r in spec['rows']]
-    em = RAMEmitter({})
+    em = RAMEmitter({'embed_path': embed} if embed else {})
     for t, row in zip(times, rows):
         em.emit({'table': 'history', 'data': dict(copy.deepcopy(row), time=t)})
-    given = {t: leaves_q(row) for t, row in zip(times, rows)}   # time -> {path: value}
+    # time -> {path: value}; with an embed_path every row is stored under that path
+    given = {t: {embed + p: v for p, v in leaves_q(row).items()} for t, row in zip(times, rows)}
+    rows = [nest_under(embed, row) for row in rows]
 
     def mag(v):
         return v.magnitude if hasattr(v, 'units') else v
@@ -205,8 +209,8 @@ def run(spec):
                     same(a[i], mag(given[t][p])) and same(b[i], mag(given[t][p]))
                 V.check('readback', ok, lambda: ('cell', t, list(p)))
         # queries
-        q = [T(p) for p in spec['query']]
-        xq = [T(p) for p in spec['extra_query']]
+        q = [embed + T(p) for p in spec['query']]
+        xq = [embed + T(p) for p in spec['extra_query']]
         qd = em.get_data(q + xq)
         for t in times:
             got = qd.get(t, KeyError)
@@ -237,6 +241,12 @@ def run(spec):
             'classes': ['falsy' if falsy else 'no_falsy', 'quantity' if quant else 'no_quantity',
                         'extra_query' if spec['extra_query'] else 'leaf_query'],
             'summary': {'rows': len(times), 'variables': len(kinds), 'queried': len(spec['query'])}}
+
+
+def nest_under(path, d):
+    for k in reversed(path):
+        d = {k: d}
+    return d
 
 
 def leaves_q(d, p=()):
